@@ -2,6 +2,7 @@ import SamVerif.Model.ErrorSet
 import SamVerif.Model.RenderByName
 import SamVerif.Model.Layout
 import SamVerif.Model.TempCounter
+import SamVerif.Model.ModuleOrder
 import Driver.Util
 /-! Protocol `errset` (C12): builds per-module error sets with the model of
 `samlang_errors::ErrorSet`, merges them in the given order and prints the resulting sequence.
@@ -72,6 +73,25 @@ def step (_ : Unit) (line : String) : Unit × String :=
     let out := renderByName names ids pm
     ((), if out.isEmpty then "-" else ",".intercalate (out.map fun e =>
       s!"M{e.modl}.sam:{e.sl + 1}:{e.sc + 1}-{e.el + 1}:{e.ec + 1}"))
+  | ["pord", names] =>
+    -- parse order of the modules: names = hex of the dotted module names, indexed by handle;
+    -- answer = handles in parse order
+    let nameBytes : List (List Nat) := (names.splitOn ";").map fun h => (bytesOfHex h).map (·.toNat)
+    let splitDots (bs : List Nat) : List (List Nat) :=
+      (bs.foldl (fun (acc : List (List Nat)) b =>
+        if b = 46 then [] :: acc else match acc with
+          | cur :: rest => (cur ++ [b]) :: rest
+          | [] => [[b]]) [[]]).reverse
+    -- long parts become heap atoms `h` with content table `tbl`
+    let (mods, tbl) := nameBytes.foldl (fun (acc : List (List Atom) × List (List Nat)) bs =>
+      let (ps, tbl) := (splitDots bs).foldl (fun (a : List Atom × List (List Nat)) part =>
+        if part.length ≤ 15 then (a.1 ++ [Atom.inl part], a.2)
+        else (a.1 ++ [Atom.heap a.2.length], a.2 ++ [part])) ([], acc.2)
+      (acc.1 ++ [ps], tbl)) ([], [])
+    let content (h : Nat) : List Nat := tbl.getD h []
+    let sorted := orderByName content mods
+    let idxOfName (n : List Nat) : Nat := (nameBytes.findIdx? (· == n)).getD 999
+    ((), ",".intercalate (sorted.map fun n => toString (idxOfName n)))
   | ["layout", defs, roots] =>
     -- defs: enum `name:variant|variant`, struct `name=fields`; variant/fields = types joined by `+` (`i` int, number = type name), `-` = none
     let parseTy (t : String) : SamVerif.Layout.Ty := if t == "i" then .int else .id t.toNat!
